@@ -233,7 +233,7 @@ CLAIMS = {
         "applications of the real expm_krylov on invariant-subspace starts and on runs that can neither break down nor converge vs "
         "the dimension the skeleton predicts. PARTIAL (searched): floating-point Lanczos orthogonality, LAPACK, and the accuracy "
         "bound — expm_krylov / expm_arnoldi are compared with scipy.linalg.expm for Hermitian / non-Hermitian operators, deficient "
-        "starts, +-dt, sizes around the dense (128) and compiled (4096) switches; norm preservation on every path. Extended: defective generators, negative steps, dense-vs-matrix-free comparison. Nearly invariant Krylov spaces (weak blocks, near-eigenvector starts, small units) in the accuracy oracle. Local TDVP updates vs the exponential of the local operator down to one-entry tensors.",
+        "starts, +-dt, sizes around the dense (128) and compiled (4096) switches; norm preservation on every path. Extended: defective generators, negative steps, dense-vs-matrix-free comparison. Nearly invariant Krylov spaces (weak blocks, near-eigenvector starts, small units) in the accuracy oracle. Local TDVP updates vs the exponential of the local operator down to one-entry tensors. Breakdown exit exact for every polynomial (LinAlg/Intertwine.v).",
         COMMON_NOTE,
         "DESIGN.md §3 C19"),
     "C17": (
